@@ -17,8 +17,12 @@ pub struct ExEmpty<T>(core::iter::Empty<T>);
 
 // what `m.range(bounds)` has to yield, for any key / bounds type; instantiated for Vec<u8> keys by axiom_brange_vec_u8
 pub uninterp spec fn brange_ok<K, V, R>(m: Map<K, V>, range: R, rem: Seq<(&K, &V)>) -> bool;
+// when `m.range(bounds)` does not panic (std: "Panics if range start > end. Panics if range start == end and both bounds are Excluded");
+// instantiated for Vec<u8> keys by axiom_brange_pre_vec_u8
+pub uninterp spec fn brange_pre<K, R>(range: R) -> bool;
 pub assume_specification<'a, K: Ord, V, A: core::alloc::Allocator + Clone, T: Ord + ?Sized, R: core::ops::RangeBounds<T>> [std::collections::BTreeMap::<K, V, A>::range::<T, R>] (m: &'a std::collections::BTreeMap<K, V, A>, range: R) -> (r: std::collections::btree_map::Range<'a, K, V>)
     where K: core::borrow::Borrow<T>
+    requires brange_pre::<K, R>(range)
     ensures brange_ok(m@, range, r.remaining());
 
 // Iterator::rev (rule R8'': `x.rev()` -> `vx_rev(x)`; a provided trait method cannot be given a generic specification)
